@@ -27,8 +27,8 @@ func vfDimChoices(d uint64, strides, blocks []uint64) (valid, invalid []vfSelDim
 		for count := uint64(1); count <= d+1; count++ {
 			for _, st := range strides {
 				for _, bl := range blocks {
-					if st < bl {
-						continue
+					if st < bl && count > 1 {
+						continue // overlapping blocks (a single block longer than the stride is fine)
 					}
 					last := start + (count-1)*st + bl
 					s := vfSelDim{start, count, st, bl}
@@ -40,6 +40,16 @@ func vfDimChoices(d uint64, strides, blocks []uint64) (valid, invalid []vfSelDim
 				}
 			}
 		}
+	}
+	// far out of bounds: values whose sums and products wrap around 2^64 (a bounds check that
+	// adds before it compares sees a small number again)
+	const top = ^uint64(0)
+	for _, s := range []vfSelDim{
+		{top, 2, 1, 1}, {top - d + 1, d, 1, 1}, {top - 3, 8, 1, 1}, {1 << 63, 2, 1, 1},
+		{0, top, 1, 1}, {0, 1 << 63, 2, 1}, {1, 2, top, 1}, {1, 3, 1 << 63, 1}, {d - 1, 2, top - d + 2, 1},
+		{0, 1, 1, top}, {1, 1, 1, top}, {d - 1, 1, 1, top - d + 2}, {0, 1, 1 << 63, 1 << 63},
+	} {
+		invalid = append(invalid, s)
 	}
 	return
 }
@@ -161,7 +171,7 @@ func TestVerif_C09(t *testing.T) {
 		add("f64", []uint64{5, 5}, []uint64{2, 3}, []uint64{5, 1})
 		add("i32", []uint64{3, 4, 3}, []uint64{2, 3, 2})
 	}
-	r.Rule("per library-written dataset (rank 1-4; contiguous and chunked with selections spanning several chunks and partial edge chunks; two shrunk, two grown and one reshaped by Resize after the write, so that stale chunks lie outside and never-allocated chunks inside the extent): every (start,count,stride,block) per dimension with start in [0,d], count in [1,d+1], stride in {1,2,3,d}, block in {1,2}, stride>=block (rank>=3: reduced stride/block sets, stated in evidence) — all valid selections plus all that leave the bounds by exactly one element; ReadHyperslab (and ReadSlice for stride=block=1) compared element-wise with a gather from the full Read() of the same open file; the chunk iterator must visit each stored chunk once and tile the full read; every selection is a distinct case")
+	r.Rule("per library-written dataset (rank 1-4; contiguous and chunked with selections spanning several chunks and partial edge chunks; two shrunk, two grown and one reshaped by Resize after the write, so that stale chunks lie outside and never-allocated chunks inside the extent): every (start,count,stride,block) per dimension with start in [0,d], count in [1,d+1], stride in {1,2,3,d}, block in {1,2}, stride>=block (rank>=3: reduced stride/block sets, stated in evidence) — all valid selections (a single block may be longer than the stride) plus all that leave the bounds by exactly one element plus 13 per dimension whose sums or products wrap around 2^64; ReadHyperslab (and ReadSlice for stride=block=1) compared element-wise with a gather from the full Read() of the same open file; the chunk iterator must visit each stored chunk once and tile the full read; every selection is a distinct case")
 	var totalSel, totalInvalid int64
 	for _, ds := range dss {
 		if r.Expired() {
@@ -336,6 +346,20 @@ func TestVerif_C09(t *testing.T) {
 					return
 				}
 				r.Outcome("equal")
+				// the same selection with the stride left out (nil means 1 in every dimension)
+				allOne := true
+				for k := range s {
+					if s[k].stride != 1 {
+						allOne = false
+					}
+				}
+				if allOne {
+					got2, err2 := d.ReadHyperslab(&HyperslabSelection{Start: hs.Start, Count: hs.Count, Block: hs.Block})
+					if gf2, ok := vfToFloats(got2); err2 != nil || !ok || !vfSameBits(gf2, want) {
+						detail["error"] = fmt.Sprint(err2)
+						r.Fail(cls+"/hyperslab/differs-with-stride-left-out", detail)
+					}
+				}
 			})
 			if unit {
 				r.Guard(cls+"/slice/", detail, func() {
@@ -786,6 +810,60 @@ func vfC09ChunkGrid(r *vkit.Run, dir string, total *int64) {
 				r.Outcome("equal")
 			})
 		})
+		// long strides: in one dimension a stride of several chunks that is not a whole number of
+		// chunks (2c+1, 3c+1, 4c+3) and of exactly 2 and 3 chunks, blocks of 1 and 2, as many blocks
+		// as fit, from every start below one stride's worth of chunks; the other dimensions take
+		// their first three elements
+		{
+			var sels [][]vfSelDim
+			for k := 0; k < rank; k++ {
+				c := g.chunk[k]
+				for _, st := range []uint64{2*c + 1, 3*c + 1, 4*c + 3, 2 * c, 3 * c} {
+					for _, bl := range []uint64{1, 2} {
+						for start := uint64(0); start < st && start < g.dims[k]; start++ {
+							if start+bl > g.dims[k] {
+								continue
+							}
+							count := (g.dims[k]-start-bl)/st + 1
+							sel := make([]vfSelDim, rank)
+							for j := range sel {
+								n := g.dims[j]
+								if n > 3 {
+									n = 3
+								}
+								sel[j] = vfSelDim{0, n, 1, 1}
+							}
+							sel[k] = vfSelDim{start, count, st, bl}
+							sels = append(sels, sel)
+						}
+					}
+				}
+			}
+			atomic.AddInt64(total, int64(len(sels)))
+			vkit.ParallelFor(len(sels), func(i int) {
+				sel := sels[i]
+				hs := &HyperslabSelection{Start: make([]uint64, rank), Count: make([]uint64, rank), Stride: make([]uint64, rank), Block: make([]uint64, rank)}
+				for k := range sel {
+					hs.Start[k], hs.Count[k], hs.Stride[k], hs.Block[k] = sel[k].start, sel[k].count, sel[k].stride, sel[k].block
+				}
+				detail := map[string]any{"dataset": name, "start": hs.Start, "count": hs.Count, "stride": hs.Stride, "block": hs.Block}
+				r.Cases(1)
+				r.Guard("chunk-grid/long-stride/", detail, func() {
+					got, err := d.ReadHyperslab(hs)
+					if err != nil {
+						detail["error"] = err.Error()
+						r.Fail("chunk-grid/long-stride/valid-selection-rejected", detail)
+						return
+					}
+					gf, _ := vfToFloats(got)
+					if want := vfGather(full, g.dims, sel); !vfSameBits(gf, want) {
+						r.Fail("chunk-grid/long-stride/"+vfC09Shape(gf, want), detail)
+						return
+					}
+					r.Outcome("equal")
+				})
+			})
+		}
 		// iterator: every piece equals the gather of its region, the pieces cover every element once
 		r.Guard("chunk-grid/iterator/", map[string]any{"dataset": name}, func() {
 			it, err := d.ChunkIterator()
